@@ -49,7 +49,7 @@ def shards(tier, seed):
     n = 12 if tier == "quick" else 16
     for i in range(n):
         out.append({"name": f"exh{i}", "kind": "exhaustive", "depth": 3 if tier == "quick" else 4,
-                    "part": i, "parts": n, "sample": 1 if tier == "quick" else 6})
+                    "part": i, "parts": n, "sample": 1 if tier == "quick" else 3})
     for i in range(4 if tier == "quick" else 16):
         out.append({"name": f"rand{i}", "kind": "random", "n": 300 if tier == "quick" else 4000})
     for i in range(2 if tier == "quick" else 8):
